@@ -155,6 +155,80 @@ def mixture_gain_invariance(model, obs, emb, init, iterations, opts, gain, emb_g
     return r
 
 
+def _trainer_variant(name, variant, D):
+    """trainer objects as a user may build them: fresh default, with the feature dimension preset, ..."""
+    from pb_bss.distribution import CWMMTrainer
+    from pb_bss.distribution.cbmm import CBMMTrainer
+    if variant == 'preset-dimension' and name == 'cwmm':
+        return CWMMTrainer(dimension=D)
+    if variant == 'preset-dimension' and name == 'cbmm':
+        return CBMMTrainer(dimension=D)
+    return pu.trainer(name)
+
+
+def _fit_with(tr, name, obs, emb, start, iterations, opts):
+    kw = pu._kw(name, opts)
+    if name in pu.INTEGRATION:
+        return tr.fit(obs, emb, iterations=int(iterations), initialization=start, **kw)
+    y = obs if name in pu.COMPLEX_OBS else emb
+    return tr.fit(y, iterations=int(iterations), initialization=start, **kw)
+
+
+@oracle
+def history_gain_invariance(model, variant, obs, emb, init, iterations, opts, gain, emb_gain):
+    """the same invariance for the other ways a fit is reached: a trainer built with its feature dimension preset, one
+    trainer object reused for the scaled data after it has fitted the original data, and a fit CONTINUED from a returned
+    model (`initialization=<model>`, cACGMM) on y resp. c*y"""
+    name = model
+    if obs is not None and np.any(np.linalg.norm(obs, axis=-1) == 0):
+        return Skip('zero frame')
+    if name in ('vmfmm', 'vmfcacgmm') and np.any(np.linalg.norm(emb, axis=-1) == 0):
+        return Skip('zero embedding')
+    obs2 = obs * gain[..., None] if (obs is not None and gain is not None) else obs
+    emb2 = emb * emb_gain[..., None] if (emb is not None and emb_gain is not None) else emb
+    y = obs if name in pu.COMPLEX_OBS else emb
+    K = init.shape[-2]
+    D = y.shape[-1]
+    shape = (obs.shape[0], K, obs.shape[1]) if name in pu.INTEGRATION else tuple(y.shape[:-2]) + (K, y.shape[-2])
+    n1 = max(1, int(iterations) // 2)
+    try:
+        if variant == 'continued':
+            if name != 'cacgmm':
+                return Skip('trainer takes affiliations only')
+            a0 = _fit_with(pu.trainer(name), name, obs, emb, init, n1, opts)
+            b0 = _fit_with(pu.trainer(name), name, obs2, emb2, init, n1, opts)
+            a = _fit_with(pu.trainer(name), name, obs, emb, a0, int(iterations), opts)
+            b = _fit_with(pu.trainer(name), name, obs2, emb2, b0, int(iterations), opts)
+            # and the cross form: the model fitted on y continued on c*y
+            b_cross = _fit_with(pu.trainer(name), name, obs2, emb2, a0, int(iterations), opts)
+        elif variant == 'reused-trainer':
+            tr = _trainer_variant(name, 'fresh', D)
+            a = _fit_with(tr, name, obs, emb, init, iterations, opts)
+            b = _fit_with(tr, name, obs2, emb2, init, iterations, opts)
+            b_cross = None
+        else:
+            a = _fit_with(_trainer_variant(name, variant, D), name, obs, emb, init, iterations, opts)
+            b = _fit_with(_trainer_variant(name, variant, D), name, obs2, emb2, init, iterations, opts)
+            b_cross = None
+    except Exception as e:  # noqa
+        if pu.numerical_rejection(e):
+            return Skip('numerical rejection')
+        return Skip(f'fit raises {type(e).__name__}')
+    if name == 'cbmm':
+        return None         # solver noise: cBMM is judged by the taped oracle above only
+    tag = f'{variant}-gain'
+    r = _compare_models(name, a, b, shape, obs, emb, obs2, emb2, tag)
+    if r is None and b_cross is not None:
+        r = _compare_models(name, a, b_cross, shape, obs, emb, obs2, emb2, tag + '-cross')
+    if r is not None and (opts or {}).get('inline_permutation_aligner') is not None \
+            and pu.inline_aligner_ties(name, obs, init, iterations, opts) is not None:
+        return Skip('tie-within-rounding: inline aligner score tie')
+    if r is not None:
+        r.desc += f' (trainer variant {variant!r}; |c| in [{np.min(np.abs(gain)) if gain is not None else 1:.1e}, ' \
+                  f'{np.max(np.abs(gain)) if gain is not None else 1:.1e}])'
+    return r
+
+
 @oracle
 def distribution_gain_invariance(dist, y, saliency, gain):
     """single distributions: Trainer.fit on y vs c*y (and log_pdf where the class normalises itself)"""
@@ -259,6 +333,7 @@ def search(ctx):
             g = np.abs(g)
         ctx.count('dist:' + dist)
         ctx.run(distribution_gain_invariance, dist=dist, y=y, saliency=sal, gain=g)
+    search_history(ctx)
     sched = []
     for name in pu.DIRECTIONAL:
         sched += [name] * ctx.n(150, 800)
@@ -278,6 +353,32 @@ def search(ctx):
             ctx.sample({'oracle': 'mixture_gain_invariance', 'model': name, **meta, 'iterations': inp['iterations'],
                         'opts': {k: (v if not isinstance(v, np.ndarray) else 'array') for k, v in inp['opts'].items()},
                         'held': ok})
+
+
+def search_history(ctx):
+    """construction / history variants (seeded/C04-m1, -m2): preset dimension, reused trainer, continued fit; gains incl.
+    a quiet stream |c| <= 1e-5"""
+    rng = ctx.rng
+    quick = ctx.tier == 'quick'
+    plan = [('cwmm', 'preset-dimension'), ('cwmm', 'reused-trainer'), ('cacgmm', 'continued'), ('cacgmm', 'reused-trainer'),
+            ('vmfmm', 'reused-trainer'), ('gcacgmm', 'reused-trainer'), ('vmfcacgmm', 'reused-trainer'),
+            ('cacgmm', 'continued'), ('cbmm', 'preset-dimension')]
+    for i in range(ctx.n(54, 900)):
+        if ctx.out_of_time(reserve=5):
+            ctx.note('history stream cut short by the time budget')
+            break
+        name, variant = plan[i % len(plan)]
+        inp, meta = _case(rng, name, quick)
+        if variant == 'continued' or rng.random() < 0.3:
+            lead = inp['obs'].shape[:-1] if inp['obs'] is not None else None
+            if lead is not None and inp['gain'] is not None:
+                span = [(-100, -5), (-100, 100), (-12, -6)][int(rng.integers(3))]
+                inp['gain'] = _gain(rng, lead, *span)
+                meta['span'] = span
+        inp.pop('model')
+        ctx.count(f'history:{name}:{variant}')
+        ctx.count(f'history-gain-span:1e{meta["span"][0]}..1e{meta["span"][1]}')
+        ctx.run(history_gain_invariance, model=name, variant=variant, **inp)
 
 
 def _close(a, b, rtol=1e-9, atol=1e-13):
